@@ -73,11 +73,12 @@ def run(ctx):
     boot.load()
     thorough = ctx.tier == "thorough"
     invs = "".join("INVARIANT %s\n" % i for i in ("FitSucceeds", "EligibleAll", "SizeExact", "InRange", "MinLeMeanLeMax"))
-    N, M = (4, 2) if thorough else (3, 2)
-    r = ctx.add_mc("Bootstrap(%d,%d)" % (N, M), tlc.run(
-        "MC_Bootstrap", "SPECIFICATION Spec\nCONSTANTS MaxN = %d\n MaxM = %d\n Alphas <- MCAlphas\n Probes <- MCProbes\n"
-        " DEV_LastRowExcluded = FALSE\n%s" % (N, M, invs), workers=16, coverage=True, timeout=1500, heap="8g"))
-    ctx.require_coverage(r, ["Draw", "Fitted"], "Bootstrap")
+    N, M = 3, 2
+    for (nn, mm) in ([(3, 2), (4, 1), (5, 1)] if thorough else [(3, 2)]):
+        r = ctx.add_mc("Bootstrap(%d,%d)" % (nn, mm), tlc.run(
+            "MC_Bootstrap", "SPECIFICATION Spec\nCONSTANTS MaxN = %d\n MaxM = %d\n Alphas <- MCAlphas\n Probes <- MCProbes\n"
+            " DEV_LastRowExcluded = FALSE\n%s" % (nn, mm, invs), workers=16, coverage=True, timeout=2400, heap="8g"))
+        ctx.require_coverage(r, ["Draw", "Fitted"], "Bootstrap")
     ctx.add_mc("Bootstrap[DEV_LastRowExcluded]", tlc.run(
         "MC_Bootstrap", "SPECIFICATION Spec\nCONSTANTS MaxN = 2\n MaxM = 1\n Alphas <- MCAlphaOne\n Probes <- MCProbes\n"
         " DEV_LastRowExcluded = TRUE\nINVARIANT FitSucceeds\nINVARIANT EligibleAll\n", workers=2), expect_violation="FitSucceeds")
